@@ -3,7 +3,7 @@
    C04_truncation_bytes_partial (Props/C04Text.v) is removed.
    Only statements; every proof is `exact <lemma>`. *)
 From Coq Require Import String List NArith ZArith Bool.
-From ACH Require Import TamperText TamperTextFacts TruncBytes TruncUtf8 Utf8Prefix TruncUtf8Facts FramingBytes Utf8Enc.
+From ACH Require Import TamperText TamperTextFacts TruncBytes TruncUtf8 Utf8Prefix TruncUtf8Facts FramingBytes Utf8Enc NumFacts.
 From ACH Require Import ArithFacts Tables C03Obl C04TextObl C04Utf8Obl.
 Import ListNotations.
 Local Open Scope list_scope.
@@ -78,6 +78,17 @@ Theorem C04_truncation_bytes_utf8 : forall f le k,
      skel (with_ctl f (cut_ctl (f_ctl f) c j)) = skel f).
 Proof. exact c04_truncation_bytes_u. Qed.
 Print Assumptions C04_truncation_bytes_utf8.
+
+(* the accepted alternative, as in C04_truncation_ctl_identical but without ascii_records:
+   with a non-zero original entry/addenda count Parse assigns the cut control record
+   exactly the values of the original one *)
+Theorem C04_truncation_ctl_identical_utf8 : forall f c,
+  utf8_records f -> asciib (f_ctl f) = true -> 1 <= c < 94 -> digitsb (column (f_ctl f) 13 21) = true ->
+  fc_count (fl_ctl (skel f)) <> 0%Z ->
+  skel (with_ctl f (cut_line (f_ctl f) c)) = skel f ->
+  parse (fctl_layout (adv_file f)) (cut_line (f_ctl f) c) = parse (fctl_layout (adv_file f)) (f_ctl f).
+Proof. exact truncated_ctl_identical_u. Qed.
+Print Assumptions C04_truncation_ctl_identical_utf8.
 
 (* the two file control layouts of the source render ASCII for every record value *)
 Theorem C04_fctl_layouts_ascii : forall adv rc, asciib (render (fctl_layout adv) rc) = true.
